@@ -87,7 +87,7 @@ CLAIMED['C03'] = {
             'owner contracts. Every internal error return is covered at once — the quantifier the suite cannot reach.',
     'note': 'Trusted: rustc MIR; derive(Clone) of Tds; field-sensitive MOD summaries with external hand-out / mutating '
             'method classification; 1 restore-by-inverse table entry, 1 infeasible edge, 9 assumed-infeasible exits with '
-            'reasons (3 value correlations, 6 = open item F2); 2 benign cache callees and the locate hint are '
+            'reasons (3 value correlations, 4 = remaining exits of F2; 2 further exits are known finding F2); 2 benign cache callees and the locate hint are '
             'declared caches.',
     'technique': 'interprocedural rollback (snapshot/restore) dataflow over rustc MIR',
     'design': '§4.2, §5 C03',
@@ -168,7 +168,7 @@ CLAIMED['C07'] = {
             'used by the guards is computed over the same canonical (u64-sorted) key sequence at the index builder and at '
             'every lookup. Decides "no mutation before the guards, no unvalidated context, no trace on failure, guards and '
             'index agree on keys"; not manifold preservation, counts or invertibility.',
-    'note': 'Trusted: as for C03; 6 assumed-infeasible exits in the kernel (open item F2) are shared with C03.',
+    'note': 'Trusted: as for C03; 4 assumed-infeasible exits in the kernel and known finding F2 (2 exits) are shared with C03.',
     'technique': 'must-pass-through (dominance), construction-site enumeration and rollback dataflow over rustc MIR',
     'design': '§5 C07',
 }
